@@ -20,6 +20,7 @@ import (
 	"math/rand"
 	"sort"
 	"strings"
+	"sync"
 	"time"
 
 	"github.com/zeebo/errs"
@@ -45,9 +46,37 @@ func init() {
 // shared helpers
 // ---------------------------------------------------------------------------------------------
 
+// codecMu serialises the record call-backs and coverage notes of TLC runs that are in flight together.
+var codecMu sync.Mutex
+
 func covAppend(c *vf.Ctx, key, line string) {
+	codecMu.Lock()
+	defer codecMu.Unlock()
 	parts, _ := c.Cov[key].([]string)
 	c.Cov[key] = append(parts, line)
+	sort.Strings(c.Cov[key].([]string))
+}
+
+// tlcJobs runs several small TLC enumerations side by side (each is dominated by JVM start-up and
+// printing); their call-backs are serialised by codecMu.
+type tlcJobs struct{ fs []func() }
+
+func (j *tlcJobs) meta(c *vf.Ctx, covKey string, mc metaConsts, fn func(r *metaRec)) {
+	j.fs = append(j.fs, func() { metaRun(c, covKey, mc, fn) })
+}
+
+func (j *tlcJobs) err(c *vf.Ctx, covKey, mode, shapes, shortBytes string, shortMax int, fn func(r *errRec)) {
+	j.fs = append(j.fs, func() { errRun(c, covKey, mode, shapes, shortBytes, shortMax, fn) })
+}
+
+func (j *tlcJobs) wait() {
+	var wg sync.WaitGroup
+	for _, f := range j.fs {
+		wg.Add(1)
+		go func(f func()) { defer wg.Done(); f() }(f)
+	}
+	wg.Wait()
+	j.fs = nil
 }
 
 // runBounded runs f in its own goroutine under recover and waits at most d for it.  A hang is
@@ -169,15 +198,17 @@ func metaRun(c *vf.Ctx, covKey string, mc metaConsts, fn func(r *metaRec)) bool 
 	cfg := "SPECIFICATION Spec\n" + consts + "INVARIANTS " + metaInvs + "\nPROPERTY ErrSticky\nCHECK_DEADLOCK FALSE\n"
 	n := 0
 	res, err := vf.TLC(vf.TLCOpts{Module: name, Cfg: cfg, Extra: map[string]string{name + ".tla": mod},
-		Seed: c.Seed, Timeout: 30 * time.Minute, HeapMB: 6000,
+		Seed: c.Seed, Timeout: 30 * time.Minute, HeapMB: 3000, Workers: 4,
 		OnLine: func(b []byte) {
 			var r metaRec
 			if err := json.Unmarshal(b, &r); err != nil {
 				c.Inconclusive("unparsable MetaCodec record: %v", err)
 				return
 			}
+			codecMu.Lock()
 			n++
 			fn(&r)
+			codecMu.Unlock()
 		}})
 	if err != nil {
 		c.Inconclusive("tlc: %v", err)
@@ -582,6 +613,7 @@ func MetaMapCases(c *vf.Ctx, maxEntries int, each func(key string, m map[string]
 // MetaCodec — codec part of C11: Decode agrees with the entry grammar on every class string, Encode emits
 // exactly the protobuf layout (entry multiset), both round-trip.
 func MetaCodec(c *vf.Ctx) {
+	defer func(t time.Time) { c.Cov["metacodec_wall_s"] = time.Since(t).Seconds() }(time.Now())
 	rng := rand.New(rand.NewSource(c.Seed))
 	q := c.Quick()
 	c.Assume = append(c.Assume,
@@ -591,6 +623,7 @@ func MetaCodec(c *vf.Ctx) {
 		"the real protobuf library cross-check uses a proto2 descriptor so that proto3's UTF-8 validation of strings (not a wire-format matter) does not apply")
 	plain := newMetaFill(0, 0)
 	gap, okc := 0, 0
+	var jobs tlcJobs
 
 	decode := func(r *metaRec) {
 		checkMetaDecode(c, r, plain, false)
@@ -610,33 +643,33 @@ func MetaCodec(c *vf.Ctx) {
 	mc := metaBase()
 	mc.plain["MaxLen"] = "7"
 	if !q {
-		mc.plain["MaxLen"] = "9"
+		mc.plain["MaxLen"] = "8"
 	}
-	metaRun(c, "codec_tlc_runs", mc, decode)
+	jobs.meta(c, "codec_tlc_runs", mc, decode)
 
 	// 2. all 256 byte values at each of the first positions
 	mc = metaBase()
 	mc.defs["Bytes"] = "0..255"
-	mc.plain["MaxLen"] = "3"
-	if !q {
-		mc.plain["MaxLen"] = "4"
-	}
-	metaRun(c, "codec_tlc_runs", mc, decode)
+	mc.plain["MaxLen"] = "3" // 4 would be 8.4 million strings (two-byte entry lengths x any two bytes)
+	jobs.meta(c, "codec_tlc_runs", mc, decode)
 
 	// 3. structure product: entries x defects, cut-offs, last-wins merging
 	mc = metaBase()
 	mc.plain["Mode"] = `"struct"`
 	if !q {
-		mc.plain["MaxEntries"] = "3"
+		mc.defs["Keys"] = "{<<>>, <<97>>, <<10,18>>, <<98,99,100>>}"
 		mc.defs["Vals"] = "{<<>>, <<120>>, <<121, 0>>}"
 	}
-	metaRun(c, "codec_tlc_runs", mc, decode)
+	jobs.meta(c, "codec_tlc_runs", mc, decode)
 	// duplicate keys with different values: last one wins (only two keys so that collisions are frequent)
 	mc = metaBase()
 	mc.plain["Mode"], mc.plain["MaxEntries"] = `"struct"`, "3"
 	mc.defs["Keys"], mc.defs["Vals"] = "{<<>>, <<97>>}", "{<<>>, <<120>>, <<121, 122>>}"
 	mc.defs["Defects"] = `{"none", "elenNM", "klen10"}`
-	metaRun(c, "codec_tlc_runs", mc, decode)
+	if !q {
+		mc.defs["Defects"] = `{"none", "elenNM", "klen10", "vlen+1", "trail", "unk", "swap", "dupkey"}`
+	}
+	jobs.meta(c, "codec_tlc_runs", mc, decode)
 
 	// 4. encode direction: layout per entry, multiset comparison, round trips, real protobuf library
 	mc = metaBase()
@@ -647,7 +680,7 @@ func MetaCodec(c *vf.Ctx) {
 		rounds = 4
 	}
 	ncase := 0
-	metaRun(c, "codec_tlc_runs", mc, func(r *metaRec) {
+	jobs.meta(c, "codec_tlc_runs", mc, func(r *metaRec) {
 		ncase++
 		for k := 0; k < rounds; k++ {
 			f := newMetaFill(c.Seed*7919+int64(ncase)*16+int64(k), ncase+k)
@@ -659,6 +692,7 @@ func MetaCodec(c *vf.Ctx) {
 			c.Sample(map[string]any{"spec": "MetaCodec", "mode": "enc", "entries_demanded": r.Want})
 		}
 	})
+	jobs.wait()
 	if metaDesc == nil {
 		c.Warn("protobuf descriptor for the metadata message could not be built; library cross-check skipped")
 	}
@@ -820,6 +854,15 @@ type hUnwrap struct{ hWrap }
 func (h *hUnwrap) Error() string { return h.text() }
 func (h *hUnwrap) Unwrap() error { return h.next() }
 
+// hUncomp is an error of a value type that cannot be compared with == (it holds a slice).
+type hUncomp struct {
+	hWrap
+	pad []int
+}
+
+func (h hUncomp) Error() string { return h.text() }
+func (h hUncomp) Unwrap() error { return h.next() }
+
 type hTNil struct{ _ int }
 
 func (h *hTNil) Error() string { return "typed nil" }
@@ -874,6 +917,8 @@ func buildErr(nodes []errNode, tail string, base string, calls *int) (error, str
 			cur = &hCause{hWrap{inner: cur, hostile: hostile, calls: calls}}
 		case "U":
 			cur = &hUnwrap{hWrap{inner: cur, hostile: hostile, calls: calls}}
+		case "UV":
+			cur = hUncomp{hWrap{inner: cur, hostile: hostile, calls: calls}, []int{1}}
 		case "TN":
 			cur = (*hTNil)(nil)
 		default:
@@ -920,15 +965,17 @@ func errRun(c *vf.Ctx, covKey, mode, shapes, shortBytes string, shortMax int, fn
 	cfg := "SPECIFICATION Spec\n" + consts + "INVARIANTS " + errInvs + "\nCHECK_DEADLOCK FALSE\n"
 	n := 0
 	res, err := vf.TLC(vf.TLCOpts{Module: name, Cfg: cfg, Extra: map[string]string{name + ".tla": mod},
-		Seed: c.Seed, Timeout: 20 * time.Minute,
+		Seed: c.Seed, Timeout: 20 * time.Minute, HeapMB: 2000, Workers: 4,
 		OnLine: func(b []byte) {
 			var r errRec
 			if err := json.Unmarshal(b, &r); err != nil {
 				c.Inconclusive("unparsable ErrCodec record: %v", err)
 				return
 			}
+			codecMu.Lock()
 			n++
 			fn(&r)
+			codecMu.Unlock()
 		}})
 	if err != nil {
 		c.Inconclusive("tlc: %v", err)
@@ -974,9 +1021,33 @@ func observe(e error) (code uint64, msg string, p any) {
 	return
 }
 
+// chainClass is the failing-input class used in signatures: where the chain leads and where its code sits.
+func chainClass(r *errRec) string {
+	depth, at := 0, "no code attached"
+	for _, n := range r.Nodes {
+		if n.K == "WC" || n.K == "HC" {
+			switch {
+			case depth == 0:
+				at = "code on the outermost error"
+			case depth < errLimit:
+				at = "code on a wrapped error"
+			default:
+				at = "code deeper than the lookup bound"
+			}
+			break
+		}
+		depth += n.N
+	}
+	if r.Tail != "end" {
+		return "chain leading to " + r.Tail + ", " + at
+	}
+	return at
+}
+
 // checkErrChain compares the real drpcerr / drpcwire functions with one chain-mode record.
 func checkErrChain(c *vf.Ctx, r *errRec, rng *rand.Rand, cache map[int][]byte, hostileOnly bool) (hung bool) {
-	sig := func(what string) string { return what + " (chain " + r.Shape + ", code " + r.Code + ")" }
+	cls := chainClass(r)
+	sig := func(what string) string { return what + " (" + cls + ")" }
 	rep := map[string]any{"shape": r.Shape, "tail": r.Tail, "code_class": r.Code, "msg_class": r.Msgcls, "nodes": r.Nodes}
 	base := string(errText(r.Base, rng, cache))
 	calls := 0
@@ -988,18 +1059,18 @@ func checkErrChain(c *vf.Ctx, r *errRec, rng *rand.Rand, cache map[int][]byte, h
 	// drpcerr.Code on the handler's error value
 	var got uint64
 	calls = 0
-	p, fin := runBounded(c, "drpcerr.Code on chain "+r.Shape, rep, 20*time.Second, func() { got = drpcerr.Code(e) })
+	p, fin := runBounded(c, "drpcerr.Code ("+cls+")", rep, 20*time.Second, func() { got = drpcerr.Code(e) })
 	if !fin {
 		return true
 	}
 	if p != nil {
 		rep["panic"] = fmt.Sprint(p)
-		c.Violation("drpcerr.Code panic on chain "+r.Shape+" ("+panicClass(p)+")", rep)
+		c.Violation("drpcerr.Code panic ("+panicClass(p)+"; "+cls+")", rep)
 		return
 	}
 	if calls > errLimit {
 		rep["unwrap_calls"] = calls
-		c.Violation("drpcerr.Code follows more than the bounded number of links on chain "+r.Shape, rep)
+		c.Violation(sig("drpcerr.Code follows more links than its bound"), rep)
 		return
 	}
 	if want := limbsToU64(r.Found); got != want {
@@ -1116,6 +1187,7 @@ func checkErrShort(c *vf.Ctx, r *errRec, onlyTotal bool) {
 // ErrorCodec — codec part of C10: every chain shape x code class x message class through the real
 // Code / MarshalError / UnmarshalError against the (code, message) ErrCodec.tla demands.
 func ErrorCodec(c *vf.Ctx) {
+	defer func(t time.Time) { c.Cov["errcodec_wall_s"] = time.Since(t).Seconds() }(time.Now())
 	rng := rand.New(rand.NewSource(c.Seed ^ 0xe44c0dec))
 	cache := map[int][]byte{}
 	c.Assume = append(c.Assume,
@@ -1124,7 +1196,8 @@ func ErrorCodec(c *vf.Ctx) {
 		"error values are built per abstract chain shape from errors.New, drpcerr.WithCode, fmt.Errorf(%w), errs.Wrap and harness types with only Code(), only Cause(), only Unwrap(); long messages (70000 bytes) are filled by the harness, seeded")
 	seen := map[string]bool{}
 	hung := false
-	errRun(c, "codec_tlc_runs", "chain", "EndShapes", "{0}", 0, func(r *errRec) {
+	var jobs tlcJobs
+	jobs.err(c, "codec_tlc_runs", "chain", "EndShapes", "{0}", 0, func(r *errRec) {
 		if hung {
 			return
 		}
@@ -1141,11 +1214,12 @@ func ErrorCodec(c *vf.Ctx) {
 	if !c.Quick() {
 		sb, sm = "{0, 37, 115, 255}", 10
 	}
-	errRun(c, "codec_tlc_runs", "short", "{}", sb, sm, func(r *errRec) {
+	jobs.err(c, "codec_tlc_runs", "short", "{}", sb, sm, func(r *errRec) {
 		checkErrShort(c, r, false)
 		c.Eval(fmt.Sprintf("err:short:%v", r.Payload))
 		c.TraceValidated(1)
 	})
+	jobs.wait()
 	// WithCode's documented identities
 	plain := errors.New("x")
 	if drpcerr.WithCode(plain, 0) != plain {
@@ -1205,15 +1279,17 @@ func hostileVariant(in []int, rng *rand.Rand) []int {
 
 // C13Codecs — decoders under hostile inputs: no panic, a value or an error, bounded work.
 func C13Codecs(c *vf.Ctx) {
+	defer func(t time.Time) { c.Cov["c13codecs_wall_s"] = time.Since(t).Seconds() }(time.Now())
 	rng := rand.New(rand.NewSource(c.Seed ^ 0xc13))
 	q := c.Quick()
 	c.Assume = append(c.Assume,
 		"hostile inputs of the codecs are the class strings / chains enumerated by spec/MetaCodec.tla and spec/ErrCodec.tla (every string over the class alphabet up to the bound, the defect product, all 256 byte values at the first positions, data of 0..10 bytes, error chains leading to nil / themselves / a 2-cycle / a typed nil pointer, depth 150); each class string is also run with seeded substitutions inside its classes",
 		"oracle here is only: no panic, a value or an error (never both), output no larger than the input, drpcerr.Code looks at no more than its bound of errors and returns; a hang is reported only when the goroutine census shows the goroutine inside drpc")
 	plain := newMetaFill(0, 0)
+	var jobs tlcJobs
 	variants := 4
 	if !q {
-		variants = 16
+		variants = 8
 	}
 	hostile := func(r *metaRec) {
 		checkMetaDecode(c, r, plain, true)
@@ -1229,33 +1305,31 @@ func C13Codecs(c *vf.Ctx) {
 	// hostile alphabet: FF and 80-FF continuation bytes, lengths that are too big, tags, a little payload
 	mc := metaBase()
 	mc.defs["Bytes"] = "{10,18,0,1,4,5,129,255,127,97}"
-	mc.plain["MaxLen"] = "8"
+	mc.plain["MaxLen"] = "7"
 	if !q {
-		mc.defs["Bytes"] = "{10,18,0,1,2,4,5,6,129,255,127,97,26}"
-		mc.plain["MaxLen"] = "9"
+		mc.defs["Bytes"] = "{10,18,0,1,4,5,6,129,255,127,97}"
+		mc.plain["MaxLen"] = "8"
 	}
-	metaRun(c, "c13_codec_tlc_runs", mc, hostile)
+	jobs.meta(c, "c13_codec_tlc_runs", mc, hostile)
 	mc = metaBase()
 	mc.defs["Bytes"] = "0..255"
-	mc.plain["MaxLen"] = "3"
-	if !q {
-		mc.plain["MaxLen"] = "4"
-	}
-	metaRun(c, "c13_codec_tlc_runs", mc, hostile)
+	mc.plain["MaxLen"] = "3" // 4 would be 8.4 million strings (two-byte entry lengths x any two bytes)
+	jobs.meta(c, "c13_codec_tlc_runs", mc, hostile)
 	mc = metaBase()
 	mc.plain["Mode"] = `"struct"`
 	mc.defs["Keys"], mc.defs["Vals"] = "{<<>>, <<97>>, <<255,128>>}", "{<<>>, <<97, 97, 97>>}"
 	if !q {
 		mc.plain["MaxEntries"] = "3"
+		mc.defs["Keys"] = "{<<>>, <<255,128>>}"
 	}
-	metaRun(c, "c13_codec_tlc_runs", mc, hostile)
+	jobs.meta(c, "c13_codec_tlc_runs", mc, hostile)
 
 	// UnmarshalError on 0..9 (thorough 0..10) bytes
 	sb, sm := "{0, 37, 255}", 9
 	if !q {
 		sb, sm = "{0, 37, 128, 255}", 10
 	}
-	errRun(c, "c13_codec_tlc_runs", "short", "{}", sb, sm, func(r *errRec) {
+	jobs.err(c, "c13_codec_tlc_runs", "short", "{}", sb, sm, func(r *errRec) {
 		checkErrShort(c, r, true)
 		c.Eval(fmt.Sprintf("c13:err:short:%v", r.Payload))
 		c.TraceValidated(1)
@@ -1264,7 +1338,7 @@ func C13Codecs(c *vf.Ctx) {
 	// drpcerr.Code on hostile error values
 	cache := map[int][]byte{}
 	hung := false
-	errRun(c, "c13_codec_tlc_runs", "chain", "HostileShapes", "{0}", 0, func(r *errRec) {
+	jobs.err(c, "c13_codec_tlc_runs", "chain", "HostileShapes", "{0}", 0, func(r *errRec) {
 		if hung || c.Violations() > 10 { // a goroutine that does not return keeps a core busy: stop after the first
 			return
 		}
@@ -1275,4 +1349,5 @@ func C13Codecs(c *vf.Ctx) {
 			c.Sample(map[string]any{"spec": "ErrCodec", "hostile_chain": r.Shape, "tail": r.Tail, "code_demanded": r.Found, "lookups_in_model": r.Steps})
 		}
 	})
+	jobs.wait()
 }
